@@ -11,7 +11,7 @@ THEOREM_FILE = "properties/C16.v"
 CASE_DEPS = ["theories/Highwater.v"]
 RULE = ("stream hier-highwater: seeded random fully wired hierarchies with children listed in execution order, long bypass wires, "
         "pass-throughs, through ports, non-negative integer sizes and local_ancillae resources, compiled by the real code with the "
-        "derived resource qubit_highwater; the compiled tree is read in the order the SOURCE lists the children (an execution order; reorder_like); at natural-number points, and at points with some negative parameters at which every port size is still non-negative, every node's reported highwater is compared inside Coq with the "
+        "derived resource qubit_highwater; the compiled tree is read in the order the SOURCE lists the children (an execution order; reorder_like); at natural-number points (evaluated in Coq, AND as the all-numeric trees the real evaluate() returns), and at points with some negative parameters at which every port size is still non-negative, every node's reported highwater is compared inside Coq with the "
         "port-level model of calculate_highwater (tie) and with the wire-level cut specification (spec: ancillae + max over the "
         "cut before the first child, bypass + child highwater during each child, the cut after the last child; and >= total "
         "input size, >= total output size); non-trivial = some node has at least 2 children; distinct by canonical JSON hash")
@@ -26,7 +26,7 @@ def gen_cases(rng, n, max_depth):
                             p_through=0.25, qubits=True)
         if H.count_nodes(r) > 12:
             continue
-        out.append({"routine": r})
+        out.append({"routine": r, "n_eval": 2, "eval_seed": rng.randint(0, 10**9)})
     return out
 
 
@@ -51,7 +51,15 @@ def emit(pairs):
         names = H.tree_input_params(imp["tree"]) if imp.get("ok") else set()
         pts = H.points_to_coq(make_points(lib.Rng(f"pts-{lib.case_hash(case)}"), names))
         lines.append(f"Definition r{k} : routine := {H.routine_to_coq(case['routine'])}.")
-        items.append(f"(check_highwater_src r{k} i{k} {pts})")
+        parts = [f"check_highwater_src r{k} i{k} {pts}"]
+        # ... and the numbers the real evaluate() reports at natural-number points (one all-numeric tree per point)
+        for j, ev in enumerate(imp.get("evals", []) if imp.get("ok") else []):
+            if ev.get("ok"):
+                lines.append(f"Definition e{k}_{j} : impl_result := {H.impl_to_coq({'ok': True, 'tree': ev['tree']})}.")
+                parts.append(f"check_highwater_src r{k} e{k}_{j} [[]]")
+            elif ev.get("exc") != "BartiqCompilationError":
+                parts.append("([1%nat], [1%nat])")
+        items.append("(let rs := " + E.coq_list(parts) + " in (flat_map fst rs, flat_map snd rs))")
     lines.append("Definition results : list (list nat * list nat) :=\n " + E.coq_list(items) + ".\n")
     lines.append("Eval vm_compute in results.\n")
     return "\n".join(lines)
